@@ -712,7 +712,8 @@ def throw_net(chk, F, G, T, rid="R-THROWNET"):
                                 x["lhs"].get("dk") not in ("local", "param"):
                             recorded.add(x["lhs"].get("name"))
     consulted = False
-    entries = [f for f in F.fns("parse_XTA") + F.fns("parseProperty") if any(c.get("name") == "utap_parse" for c in calls(f["body"]))]
+    entries = [f for f in F.functions.values() if f.get("body") is not None and f.get("name") != "utap_parse" and
+               any(c.get("name") == "utap_parse" for c in calls(f["body"]))]
     if entries and recorded:
         consulted = all(any(any(x.get("k") == "ref" and x.get("name") in recorded for x in walk(n)) and
                             any(c.get("name") == "utap_parse" for c in calls(n))
